@@ -33,7 +33,19 @@ func (p *VarPool) GetName(baseName string) string {
 		return baseName
 	}
 
-	return fmt.Sprintf("%s%d", baseName, count-1)
+	// A suffixed name may already be taken, either because it was requested as a
+	// base name itself (type Foo0 next to two values of type Foo) or because it was
+	// handed out before: skip to the next free suffix and reserve what is returned.
+	for {
+		name := fmt.Sprintf("%s%d", baseName, count-1)
+		if _, taken := p.vars[name]; !taken {
+			p.vars[name] = 1
+			return name
+		}
+
+		count++
+		p.vars[baseName] = count + 1
+	}
 }
 
 func (p *VarPool) Get(t types.Type) string {
@@ -43,19 +55,7 @@ func (p *VarPool) Get(t types.Type) string {
 }
 
 func (p *VarPool) GetChannel(t types.Type) string {
-	name := p.getBaseName(t) + "Ch"
-
-	count, ok := p.vars[name]
-	if !ok {
-		count = 0
-	}
-	p.vars[name] = count + 1
-
-	if count == 0 {
-		return name
-	}
-
-	return fmt.Sprintf("%s%d", name, count-1)
+	return p.GetName(p.getBaseName(t) + "Ch")
 }
 
 // getTypeBaseName extracts a base name from a type for argument naming
